@@ -2,7 +2,6 @@ package main
 
 import (
 	"fmt"
-	"go/token"
 	"go/types"
 	"strings"
 
@@ -465,13 +464,12 @@ func (c *Ctx) checkLivenessGlue() {
 	c.check(bad == "" && len(writers) > 0, rule, "the last-receive timestamp is refreshed only by received messages", p.Pos(lrF.Pos()), fmt.Sprintf("%d writer(s), all reached only from OnMessage and the staleness loop", len(writers)),
 		"lastReceive is also refreshed from "+bad+": data the client itself sends (KCP retransmissions, smux keep-alives) keeps the timer fresh, so a silently dead proxy is never dropped and the standby is never used")
 	// the staleness loop closes the peer when Since(lastReceive) > timeout
-	expired := condEdges(stale, true, func(a Atom) bool {
-		if a.Op != token.LSS || a.X != ssa.Value(stale.Params[1]) {
-			return false
-		}
-		cc, _, ok := callResult(a.Y)
-		return ok && calleeName(cc) == "time.Since" && flows(cc.Call.Args[0], func(v ssa.Value) bool { return isFieldLoadOf(v, lrF) })
-	})
+	isSince := func(v ssa.Value) bool {
+		cc, _, ok := callResult(v)
+		return ok && calleeName(cc) == "time.Since" && flows(cc.Call.Args[0], func(w ssa.Value) bool { return isFieldLoadOf(w, lrF) })
+	}
+	isTO := func(v ssa.Value) bool { return v == ssa.Value(stale.Params[1]) }
+	expired := append(cmpEdges(stale, ">", isSince, isTO), cmpEdges(stale, ">=", isSince, isTO)...)
 	okClose := false
 	for _, ci := range callsTo(stale, "(*client/lib.WebRTCPeer).Close") {
 		if len(expired) > 0 && reachableWithout(stale, ci, expired) == nil {
